@@ -1,5 +1,6 @@
 """C20 - bundled readers: renderer completeness checker + CLI stream monitor."""
 
+import copy
 import datetime
 import json
 import os
@@ -7,6 +8,7 @@ import random
 import re
 import subprocess
 import sys
+import types
 
 from eliot.prettyprint import compact_format, pretty_format
 
@@ -32,7 +34,11 @@ RULE = ("part 'format': Eliot messages (metadata + action/message typing + field
         "buffered and output shows up once it exceeds the buffers) is fed 2500-4000 complete lines (messages of >= 100 bytes each, one non-JSON line and one non-Eliot object among the first ten) through a pipe that is KEPT OPEN: the renderings of "
         "the first ten lines must appear on stdout while stdin is still open; the violation is decided on a state, not a deadline - all input consumed (pipe empty), the command asleep without using CPU over consecutive samples with its stdout "
         "drained, and those renderings absent (no such state within 90 s = inconclusive); afterwards stdin is closed and exit status 0 and one rendering per message are required. non-trivial = message with a multi-line/escape-requiring string or "
-        "nesting, or a stream with >=2 kinds of foreign lines; distinct by hash of message / stream")
+        "nesting, or a stream with >=2 kinds of foreign lines; distinct by hash of message / stream. "
+        "Widened (r9): half of the 'cli' streams carry their messages in other legal JSON-text spellings of the same bytes-on-a-line (a UTF-8 signature EF BB BF in front of the first line as a utf-8-sig text file writes it, "
+        "or in front of any message line as in concatenated logs; CRLF line ends; blanks/tabs/CR around the JSON text) - each such line still is that message and must be rendered, not reported. "
+        "Every fourth 'format' message is additionally rendered several times from ONE dict object (sequences of pretty_format / compact_format / local-time renderings, 3-5 calls): every rendering is judged by the same "
+        "re-parsing oracle against the message as generated, the caller's dict must equal a deep copy taken before, and read-only views of the message (types.MappingProxyType, pyrsistent.pmap) are rendered like the message itself")
 ASSUMPTIONS = ["field names contain no whitespace and no '=' (otherwise the compact form is ambiguous to any reader)",
                "the CLI is run with UTF-8 standard streams"]
 
@@ -116,7 +122,7 @@ def field_order(m):
     return keys
 
 
-def check_compact(m, out, problems):
+def check_compact(m, out, problems, ts_alts=None):
     if "\n" in out or "\r" in out:
         problems.append("compact output is not a single line")
         return
@@ -126,8 +132,8 @@ def check_compact(m, out, problems):
         return
     rest = out[len(head):]
     ts, _, rest = rest.partition(" ")
-    if ts not in expected_ts(m["timestamp"]):
-        problems.append("compact timestamp %r, expected %s" % (ts, expected_ts(m["timestamp"])))
+    if ts not in (ts_alts or expected_ts(m["timestamp"])):
+        problems.append("compact timestamp %r, expected %s" % (ts, ts_alts or expected_ts(m["timestamp"])))
     dec = json.JSONDecoder()
     pos = 0
     for k in field_order(m):
@@ -171,14 +177,14 @@ def leaf_tokens(v, out):
             leaf_tokens(x, out)
 
 
-def check_pretty(m, out, problems):
+def check_pretty(m, out, problems, ts_alts=None):
     lines = out.split("\n")
     want0 = "%s -> /%s" % (m["task_uuid"], "/".join(str(x) for x in m["task_level"]))
     if lines[0] != want0:
         problems.append("pretty header %r, expected %r" % (lines[0], want0))
         return
-    if len(lines) < 2 or lines[1] not in expected_ts(m["timestamp"]):
-        problems.append("pretty timestamp line %r, expected %s" % (lines[1:2], expected_ts(m["timestamp"])))
+    if len(lines) < 2 or lines[1] not in (ts_alts or expected_ts(m["timestamp"])):
+        problems.append("pretty timestamp line %r, expected %s" % (lines[1:2], ts_alts or expected_ts(m["timestamp"])))
         return
     i = 2
     for k in field_order(m):
@@ -212,6 +218,68 @@ def check_pretty(m, out, problems):
     rest = [ln for ln in lines[i:] if ln != ""]
     if rest:
         problems.append("pretty output has unexpected trailing lines %r" % rest[:3])
+
+
+try:
+    from pyrsistent import pmap as _pmap
+except Exception:  # (pyrsistent is a dependency of eliot; without it only the stdlib view is used)
+    _pmap = None
+
+SAME_OBJECT_SEQUENCES = ["PCP", "PPC", "PC", "CPC", "PLC", "PcP", "CPLP", "PCPCP", "LPC", "cPC"]  # P pretty, C compact, L pretty local time, c compact local time
+
+
+def run_same_object(m, i, seed, zoff, res, problems):
+    """One dict object (and read-only views of it) rendered several times in a row: each rendering shows the whole message; the caller's object stays as it was."""
+    rng = random.Random("%s:C20:fs:%d" % (seed, i))
+    try:
+        local_ts = [(datetime.datetime.fromtimestamp(m["timestamp"], tz=datetime.timezone.utc) + datetime.timedelta(minutes=zoff)).replace(tzinfo=None).isoformat(sep="T")]
+    except (OverflowError, ValueError):
+        local_ts = None  # the local time lies outside datetime's range
+    seq = rng.choice(SAME_OBJECT_SEQUENCES)
+    if local_ts is None:
+        seq = seq.replace("L", "P").replace("c", "C")
+    c = res["counters"]
+    holders = [("the same dict object", lambda d: d)]
+    if rng.random() < 0.3:
+        holders.append(("a read-only view (types.MappingProxyType) of the message", types.MappingProxyType))
+        if _pmap is not None:
+            holders.append(("a read-only copy (pyrsistent.pmap) of the message", _pmap))
+    for what, make in holders:
+        obj = copy.deepcopy(m)
+        held = make(obj)
+        done = ""
+        for op in seq:
+            fn, chk, name = (pretty_format, check_pretty, "pretty_format") if op in "PL" else (compact_format, check_compact, "compact_format")
+            local = op in "Lc"
+            before = len(problems)
+            try:
+                out = fn(held, True) if local else fn(held)
+            except BaseException as e:
+                problems.append("%s raised %r" % (name, e))
+                out = None
+            if out is not None:
+                if isinstance(out, str):
+                    chk(m, out, problems, local_ts if local else None)
+                else:
+                    problems.append("%s returned %s" % (name, type(out).__name__))
+            if len(problems) > before:
+                problems[before] = "%s, rendered as call %d of the sequence %r (after %r): %s" % (what, len(done) + 1, seq, done, problems[before])
+                del problems[before + 1:]
+                break
+            if done:
+                c["same_object_rerenderings"] = c.get("same_object_rerenderings", 0) + 1
+                if "P" in done or "L" in done:
+                    c["renderings_after_pretty_format_of_same_object"] = c.get("renderings_after_pretty_format_of_same_object", 0) + 1
+            done += op
+        if make is not holders[0][1]:
+            c["readonly_mapping_renderings"] = c.get("readonly_mapping_renderings", 0) + len(done)
+        # ground truth: the message as generated (m); obj is what the formatters were handed
+        if not (obj == m and json.dumps(obj, sort_keys=True) == json.dumps(m, sort_keys=True)):
+            gone = sorted(set(m) - set(obj))
+            problems.append("%s was modified by rendering it (%s): fields gone %s, fields added %s, fields changed %s" % (
+                what, seq, gone, sorted(set(obj) - set(m)), sorted(k for k in m if k in obj and obj[k] != m[k])))
+    if any(k in m for k in FIRST):
+        c["same_object_messages_with_type_or_status"] = c.get("same_object_messages_with_type_or_status", 0) + 1
 
 
 ZONES = [("UTC0", 0), ("IST-5:30", 330), ("NST3:30", -210), ("CHAST-12:45", 765), ("XYZ11", -660)]  # POSIX TZ strings: no tz database needed
@@ -260,6 +328,8 @@ def run_format(spec, res):
                 problems.append("%s returned %s" % (name, type(out).__name__))
                 continue
             chk(m, out, problems)
+        if i % 4 == 1:
+            run_same_object(m, i, spec["seed"], zoff, res, problems)
         res["evals"] += 1
         res["counters"]["messages_rendered"] = res["counters"].get("messages_rendered", 0) + 1
         vals = [v for k, v in m.items() if k not in SKIPF]
@@ -273,6 +343,8 @@ def run_format(spec, res):
         if problems:
             res["violations"].append({"msg": problems[0], "mech": None, "detail": {"case": i, "problems": problems[:6], "message": m}})
 
+
+BOM = b"\xef\xbb\xbf"  # the UTF-8 signature a text file opened with encoding="utf-8-sig" starts with
 
 FOREIGN_KINDS = ["garbage_bytes", "text", "json_number", "json_array", "json_null", "json_string", "json_bool", "object_missing_field",
                  "empty_object", "empty_line", "invalid_utf8", "truncated_json", "json_nan"]
@@ -350,6 +422,36 @@ def run_cli(spec, res):
                     l[1]["timestamp"] = 1e9 + 0.25
             lines = [(l[0], l[1], json.dumps(l[1], ensure_ascii=True).encode("utf-8")) if l[0] == "eliot" else l for l in lines]
             data = b"".join(l[2] + b"\n" for l in lines)
+        # other legal spellings of the same JSON texts on their lines (what l[2] decodes to stays the ground truth)
+        vrng = random.Random("%s:C20:cv:%d" % (spec["seed"], i))
+        style = vrng.choice([None, None, None, "utf-8-sig file", "windows tool", "concatenated logs", "whitespace"])
+        nbom = nvar = 0
+        if style is not None:
+            final_newline = data.endswith(b"\n")
+            wire = []
+            for idx, l in enumerate(lines):
+                b, end = l[2], b"\n"
+                if style in ("utf-8-sig file", "windows tool"):
+                    # the signature opens the stream (whatever its first line is); a Windows tool also ends lines with CR LF
+                    if idx == 0:
+                        b = BOM + b
+                    if style == "windows tool":
+                        end = b"\r\n"
+                elif l[0] == "eliot":
+                    if style == "concatenated logs":
+                        if idx == 0 or vrng.random() < 0.4:
+                            b = BOM + b
+                    else:
+                        b = vrng.choice([b"", b" ", b"\t", b"  \t "]) + b + vrng.choice([b"", b" ", b"\t", b"\r", b" \r"])
+                        if vrng.random() < 0.2:
+                            b = BOM + b
+                if l[0] == "eliot" and b + end != l[2] + b"\n":
+                    nvar += 1
+                    nbom += b.startswith(BOM)
+                wire.append(b + end)
+            data = b"".join(wire)
+            if not final_newline and lines[-1][2].strip() != b"":
+                data = data[:-len(end)]
         try:
             p = subprocess.run(cmd, input=data, capture_output=True, env=env, timeout=120)
         except subprocess.TimeoutExpired:
@@ -367,7 +469,8 @@ def run_cli(spec, res):
             if kind == "eliot":
                 want = fmt(json.loads(enc), local) + "\n"
                 if not out.startswith(want, pos):
-                    problems.append("record %d: Eliot message not rendered as the API renders it (found %r)" % (processed, out[pos:pos + 80]))
+                    problems.append("record %d: Eliot message not rendered as the API renders it (found %r)%s" % (
+                        processed, out[pos:pos + 80], "; input style: %s" % style if style else ""))
                     break
                 pos += len(want)
             else:
@@ -383,6 +486,10 @@ def run_cli(spec, res):
         c = res["counters"]
         c["cli_streams"] = c.get("cli_streams", 0) + 1
         c["cli_input_lines"] = c.get("cli_input_lines", 0) + len(lines)
+        c["cli_message_lines_in_variant_spelling"] = c.get("cli_message_lines_in_variant_spelling", 0) + nvar
+        c["cli_message_lines_with_utf8_signature"] = c.get("cli_message_lines_with_utf8_signature", 0) + nbom
+        if style is not None:
+            res["sets"].setdefault("cli_input_styles", []).append(style)
         for k in kinds:
             res["sets"]["foreign_kinds"].append(k)
         if len(kinds) >= 2:
@@ -391,7 +498,7 @@ def run_cli(spec, res):
         if problems:
             # F6: JSON values that are not objects abort the command (AttributeError on .keys())
             res["violations"].append({"msg": problems[0], "mech": mech,
-                                      "detail": {"case": i, "problems": problems[:5], "compact": compact,
+                                      "detail": {"case": i, "problems": problems[:5], "compact": compact, "input_style": style, "input_head": repr(data[:60]),
                                                  "input": [(l[0], l[1] if l[0] == "foreign" else "message", repr(l[2][:80])) for l in lines],
                                                  "stderr": p.stderr.decode("utf-8", "replace")[-600:]}})
 
@@ -758,6 +865,10 @@ def finalize(agg, tier):
         return "not every kind of foreign line was fed to the CLI"
     if len(agg["sets"].get("field_name_lengths", {})) < 120 or c.get("keylen_cli_streams", 0) < 2:
         return "part 'keylen' did not cover every field-name length 1..120 / did not stream them through the CLI"
+    if c.get("cli_message_lines_with_utf8_signature", 0) == 0 or c.get("cli_message_lines_in_variant_spelling", 0) <= c.get("cli_message_lines_with_utf8_signature", 0):
+        return "part 'cli' never fed the command a message line behind a UTF-8 signature / in another spelling (CRLF, surrounding whitespace)"
+    if c.get("renderings_after_pretty_format_of_same_object", 0) == 0 or c.get("same_object_messages_with_type_or_status", 0) == 0 or c.get("readonly_mapping_renderings", 0) == 0:
+        return "part 'format' never rendered one message object again after pretty_format / never rendered a read-only view"
     if c.get("live_streams", 0) == 0:
         return "part 'live' never fed the command through a pipe that stayed open"
     return None
